@@ -13,6 +13,7 @@
 #              negative long (rdpe_sqr_eq) is defined behaviour for gcc (documented), not a defect
 # mode plain : -O1 -g, no sanitizers (bit-exact numerics, valgrind-able)
 # mode shim  : like plain, pthread_* redirected to the deterministic scheduler
+# mode pic   : like plain with -fPIC, also links <scratch>/libmps.so.3 (for the Python binding)
 set -euo pipefail
 SCR="$1"; MODE="${2:-san}"
 REPO="${VERIF_REPO:-/repo}"
@@ -44,6 +45,7 @@ case "$MODE" in
   san)   OPT="-O1 -fsanitize=address,undefined -fno-sanitize=shift-base -fno-sanitize-recover=all"; LDX="-fsanitize=address,undefined" ;;
   plain) OPT="-O1"; LDX="" ;;
   shim)  OPT="-O1 -DVF_SHIM=1"; LDX="" ;;
+  pic)   OPT="-O1 -fPIC"; LDX="" ;;
   shimsan) OPT="-O1 -DVF_SHIM=1 -fsanitize=address,undefined -fno-sanitize=shift-base -fno-sanitize-recover=all"; LDX="-fsanitize=address,undefined" ;;
   *) echo "bad mode $MODE" >&2; exit 2 ;;
 esac
@@ -62,6 +64,10 @@ if ! printf '%s\n' $SRCS | xargs -P "${VERIF_JOBS:-16}" -I{} bash -c 'compile_on
   exit 4
 fi
 rm -f "$SCR/libmps.a"; ar rcs "$SCR/libmps.a" "$SCR"/obj/*.o
+if [ "$MODE" = pic ]; then
+  # shared library under the soname the Python binding (examples/python/mpsolve.py) loads
+  g++ -shared -Wl,-soname,libmps.so.3 -o "$SCR/libmps.so.3" "$SCR"/obj/*.o -lgmpxx -lgmp -lm -lpthread
+fi
 echo "$OPT $COMMON" > "$SCR/cflags"
 echo "$LDX $SCR/libmps.a -lgmpxx -lgmp -lm -lpthread -lstdc++" > "$SCR/ldflags"
 echo "$SNAP"
